@@ -119,10 +119,12 @@ FORMAT_TOKENS = [
     "ooTextFile",
     "1e-05",
     "intervals: size = 1",
+    "\n! x",
+    "\n  !",
 ]
 
 _ALPHABET = (
-    ["a", "b", "Z", "0", "1", "7", " ", "\t", '"', '""', "\n", "=", ".", "-", "[", "]", ":", "<", ">", "!", ",", "(", ")", "_", "\\", "/", "'"]
+    ["a", "b", "Z", "0", "1", "7", " ", "\t", '"', '""', "\n", "=", ".", "-", "[", "]", ":", "<", ">", "!", ",", "(", ")", "_", "\\", "/", "'", "\n!c"]
     + ["é", "ß", "日", "本", "́", "\U0001F600", "Ж"]
     + ["\x0b", "\x0c", "\x1c", "\x85", " ", " "]
 )
@@ -137,7 +139,7 @@ def _rich_text():
             alphabet=st.characters(blacklist_categories=("Cs",), blacklist_characters="\r"),
             max_size=10,
         ),
-        st.sampled_from(["", "a", '"', '""', '"""', 'a"', '"a', 'a"b', "a\nb", 'a"\nb', "x = 1", "3", "3.5"]),
+        st.sampled_from(["", "a", '"', '""', '"""', 'a"', '"a', 'a"b', "a\nb", 'a"\nb', "x = 1", "3", "3.5", "a\n!b\nc", "!a", "a\n \t! b"]),
     )
 
 
